@@ -53,6 +53,7 @@ var templates = []tmpl{
 	{"REQUEST-merge", `$r->parseForm(); $a = $_REQUEST["n"]; gate(1); $b = $_REQUEST["p"]; gate(2); $c = $_REQUEST["c"]; $w->write($a); $w->write("|"); $w->write($b); $w->write("|"); $w->write($c);`},
 	{"GET-once-late", `gate(1); $w->write($_GET["n"]);`},
 	{"request-object", `$a = $r->input("n"); gate(1); $b = $r->header("X-Id"); gate(2); $c = $r->method(); $w->write($a); $w->write("|"); $w->write($b); $w->write("|"); $w->write($c);`},
+	{"json-response", `$a = ["n" => $r->input("n")]; gate(1); $w->json($a);`},
 	{"echo-output", `echo "e", $r->input("n"); gate(1); $w->write("w"); $w->write($r->input("n"));`},
 }
 
@@ -395,7 +396,7 @@ func main() {
 	c.Set("per_scenario", per)
 	c.Assume("requests are served through nethttp.Handler.ServeHTTP on one shared VM/closure exactly as ServerHandleMethod wires them; the TCP/net/http layer below is not part of the explored state")
 	c.Assume("more than 3 overlapping requests and shared state in packages that govis does not instrument are outside the bound")
-	c.Finish(int64(outcomes), execs, execs, "13 handler templates x {2 requests unbounded at gate granularity, 2 requests preemption bound 2 at shared-access granularity (thorough: 3 requests, bound 3)}; every interleaving; each response compared with the same request served alone; states = distinct response vectors")
+	c.Finish(int64(outcomes), execs, execs, "14 handler templates x {2 requests unbounded at gate granularity, 2 requests preemption bound 2 at shared-access granularity (thorough: 3 requests, bound 3)}; every interleaving; each response compared with the same request served alone; states = distinct response vectors")
 }
 
 func replay(c *ev.Check) {
